@@ -1,7 +1,7 @@
 \* C08 thorough tier: all 97^2 polynomials of degree <= 1, the whole "ex3" family, every schedule with
-\* domain 8..1024 (6 variants each up to 256, 1 variant above), more apply_drp / position cases.
+\* domain 8..1024 (14 variants each up to 256, 1 variant above), more apply_drp / position cases.
 SPECIFICATION Spec
-CONSTANTS NReal = 1500  RealMaxLogN = 14  MinLogN = 3  MaxLogN = 8  Variants = 6  NDrp = 600  NPos = 1500
+CONSTANTS NReal = 3000  RealMaxLogN = 14  MinLogN = 3  MaxLogN = 8  Variants = 14  NDrp = 1500  NPos = 3000
   Ex1B <- Ex1BAll  Ex3A = {1, 2, 3, 4}  Ex3P = {1, 2, 3, 4}  BigLogNs = {9, 10}  BigBlowups <- BlowupsAll
   Blowups <- BlowupsAll  Foldings <- FoldingsAll  RemDegs <- RemDegsAll
 ACTION_CONSTRAINT Emit
